@@ -19,6 +19,7 @@ package c05
 import (
 	"context"
 	"fmt"
+	"os"
 	"runtime/debug"
 	"sort"
 	"strings"
@@ -892,6 +893,17 @@ func cleanFamily(quick bool) []Params {
 				add(p)
 			}
 		}
+		// round 5: editions features (features.go) and the boolean file option written with its default value
+		for pi := range Palettes {
+			for _, fv := range FeatureVariants {
+				p := DefaultParams()
+				p.Palette, p.SyntaxA, p.Features = pi, "editions", fv
+				add(p)
+			}
+			p := DefaultParams()
+			p.Palette, p.FileOpts, p.BoolOptFalse = pi, true, true
+			add(p)
+		}
 		return out
 	}
 	for pi := range Palettes {
@@ -939,6 +951,30 @@ func cleanFamily(quick bool) []Params {
 				}
 			}
 		}
+		// round 5: editions features x comment style x where the editions files are (main types file and
+		// leaf / leaf only) x request / response placement (moves messages into the editions file); the
+		// boolean file option written with its default value x syntax
+		for _, fv := range FeatureVariants {
+			for _, doc := range GoodDocs {
+				for _, sy := range []string{"editions", "proto2"} {
+					p := DefaultParams()
+					p.Palette, p.SyntaxA, p.Doc, p.Features = pi, sy, doc, fv
+					add(p)
+				}
+			}
+			for rr := 1; rr <= 3; rr++ {
+				p := DefaultParams()
+				p.Palette, p.SyntaxA, p.Features, p.RRPlace, p.FileOpts = pi, "editions", fv, rr, true
+				add(p)
+			}
+		}
+		for _, sy := range syntaxes {
+			for _, custom := range []bool{false, true} {
+				p := DefaultParams()
+				p.Palette, p.SyntaxA, p.FileOpts, p.BoolOptFalse, p.Custom = pi, sy, true, true, custom
+				add(p)
+			}
+		}
 	}
 	return out
 }
@@ -980,12 +1016,16 @@ func run(r *evid.Run) {
 		"import usage: via (the one import names the declaring file / an umbrella file that re-exports it as 1st, 2nd, 3rd `import public` / two levels of `import public`) x reference site (field at depth 0 and 2, map value, oneof member, rpc request / response, extendee top-level / nested, extension type, custom option on file / message / field) x consumer syntax, clean and with an unused import planted (beside the used one, first / last; an umbrella leading to unused files; the reference removed); " +
 		"entry: how the image reaches the linter: built from source, or rebuilt from plain descriptors as protoc-gen-buf-lint does (every clean member, every import-usage case, the first instance of every operator on every base and every instance of the import / syntax operators); " +
 		"CLI binding: input (directory / image written by `buf build -o`) x configuration delivery (--config data / --config file / buf.yaml in the directory) x {all rules v2, v1; no use key in v2, v1, v1beta1} for the clean workspace and every planted rule that is a default rule of some versions only. " +
+		"editions features: every editions file under 7 feature variants (delimited message encoding per field / by file default, implicit presence per field / by file default, closed enums, expanded repeated fields, no UTF-8 validation), clean and with every operator at every site of the editions files planted; " +
+		"boolean file option: present with the value an absent option has (java_multiple_files = false) in the rest of the package x one file with the other value / without the option; " +
+		"module size: modules of 8p-1 .. 9p+1 and 16p+1 small files (one planted violation per file, six kinds incl. a cross-file one; every file a package of its own / packages of three files) under process-wide parallelism p in {2, 3} and the machine's own, i.e. around the switch of bufprotosource.NewFiles to parallel chunks and for every remainder. " +
 		"A distinct non-trivial case is one clean family member or one (base, operator, site) triple; every one of them is a different workspace text.")
 	r.Assume("expected rule IDs and collateral sets are data next to each operator, reviewed against the rules' Purpose strings; which token of the offending element is annotated is fixed per rule (name token for naming rules, declaration start for comment/streaming/uniqueness/package/import/option rules, type token for request/response naming, number token for ENUM_FIRST_VALUE_ZERO)")
 	r.Assume("rule and category membership per config version, and which rules run without a use key (Rule.Default), are read from Client.AllRules (rule selection itself is property C06)")
 	r.Assume("v2: a module entry's non-empty lint block is that module's lint configuration; the module-over-top layout only gives other values to keys the module's block sets itself, so no merge semantics are assumed; one module per workspace")
 	r.Assume("the descriptors entry replays the two bufimage calls of protoc-gen-buf-lint's handler (the handler is unexported) on the CodeGeneratorRequest buf itself would send, after a wire round trip without extension knowledge; plain descriptors do not say whether a syntax statement was present, so SYNTAX_SPECIFIED is not expected under that entry")
 	r.Assume("CLI binding: a buf.yaml without lint key means the default rules of its own version (Rule.Default of Client.AllRules) whatever the input form; module-level lint blocks are not combined with image inputs; the buf.yaml of the process working directory (image input without --config) is not exercised")
+	r.Assume("editions features are written as `option features.x = Y;` at file level or `[features.x = Y]` on a field; they do not change which declaration an element is, so the expectations are those of the same workspace without features (plus ENUM_FIRST_VALUE_ZERO plants for closed editions enums)")
 	r.Assume("files use spaces only (no tabs), ASCII identifiers, LF line ends; comment-ignore directives and ignore paths are out of scope (C06); custom plugins are out of scope")
 
 	tables, err := loadRuleTables(ctx)
@@ -994,6 +1034,14 @@ func run(r *evid.Run) {
 		return
 	}
 	rn := &runner{r: r, ctx: ctx, tables: tables, st: newStats()}
+	// VERIF_C05_PHASES=1 prints the wall time of every phase on stderr (development aid, not evidence)
+	phaseStart := time.Now()
+	phase := func(name string) {
+		if os.Getenv("VERIF_C05_PHASES") != "" {
+			fmt.Fprintf(os.Stderr, "c05 phase %s: %.1fs\n", name, time.Since(phaseStart).Seconds())
+		}
+		phaseStart = time.Now()
+	}
 
 	// ---- clean part
 	family := cleanFamily(r.Quick())
@@ -1089,6 +1137,37 @@ func run(r *evid.Run) {
 			}
 		}
 	}
+	// Editions features (round 5, features.go): every editions plant base under every feature variant; the
+	// operators at the sites of its editions files (the features change nothing in other files).
+	featureJobs := map[string]int{}
+	editionsBases := 0
+	for _, b := range bases {
+		if b.SyntaxA != "editions" {
+			continue
+		}
+		editionsBases++
+		for _, fv := range FeatureVariants {
+			fb := b
+			fb.Features = fv
+			for _, pl := range Plants(fb) {
+				if !strings.Contains(pl.Site, ":editions") || pl.ThoroughOnly && r.Quick() {
+					continue
+				}
+				// the comment shapes other than none / detached: thorough, first editions base only
+				if (r.Quick() || editionsBases > 1) && strings.HasPrefix(pl.Op, "comment-") && !strings.HasSuffix(pl.Op, "/none") && !strings.HasSuffix(pl.Op, "/detached") {
+					continue
+				}
+				jobs = append(jobs, plantJob{fb, pl})
+				featureJobs[fv]++
+			}
+		}
+	}
+	r.Set("plant_instances_per_editions_feature_variant", featureJobs)
+	for _, fv := range FeatureVariants {
+		if featureJobs[fv] == 0 {
+			r.Incomplete("no planted workspace with the editions feature variant " + fv)
+		}
+	}
 	// Configuration menus (the configuration dimension does not depend on the site, so the full menu is
 	// spent on one instance per operator): the first instance of every operator on the first base
 	// (thorough: on every base) gets the full menu; every other instance the lite (quick) / medium
@@ -1130,7 +1209,7 @@ func run(r *evid.Run) {
 			pv[i] = 3
 		case firstOfOp && first && !r.Quick():
 			pv[i] = 4
-		case firstOfRule:
+		case firstOfRule && j.p.Features == "":
 			pv[i] = 1
 		}
 		switch {
@@ -1146,12 +1225,19 @@ func run(r *evid.Run) {
 			entries[i] = 1
 		}
 	}
+	phase("clean+usage")
 	r.ParallelFor(len(jobs), 0, func(i int) {
 		rn.runPlant(jobs[i].p, jobs[i].pl, i, menu[i], pv[i], shapes[i], entries[i])
 	})
+	phase("plants")
 
 	// ---- CLI binding
 	rn.cliPart(bases[0], Plants(bases[0]), bases[1])
+	phase("cli")
+
+	// ---- module size: many files under several values of the process-wide parallelism (serial phase)
+	rn.manyFilesPart()
+	phase("many-files")
 
 	// ---- coverage facts and vacuity guards
 	st := rn.st
@@ -1226,6 +1312,20 @@ func run(r *evid.Run) {
 			if st.shapeEvals[shape+"/option-keys="+key] == 0 {
 				r.Incomplete("configuration shape never exercised: " + shape + " with " + key + " as the only option")
 			}
+		}
+	}
+	// editions features: a missing comment must have been planted on a delimited message field (per field
+	// and by file default), a first non-zero value in a closed editions enum, a required field under
+	// implicit presence
+	for _, need := range [][2]string{{"COMMENT_FIELD", "delimited-"}, {"FIELD_LOWER_SNAKE_CASE", "delimited-"}, {"ENUM_FIRST_VALUE_ZERO", ":editions"}} {
+		found := false
+		for site := range st.sitesByRule[need[0]] {
+			if strings.Contains(site, need[1]) {
+				found = true
+			}
+		}
+		if !found {
+			r.Incomplete("editions features: no planted " + need[0] + " evaluation at a site matching " + need[1])
 		}
 	}
 	perRule := map[string]any{}
